@@ -390,6 +390,19 @@ def measure_documents(draw, MP):
     nm = draw(st.integers(1, MP['max_measures']))
     barno = 0
     open_split = False
+    if MP['splits'] and not pickup and width() >= 2 and draw(st.integers(0, 5)) == 0:
+        # the score opens with a split: no barline and no data before the spine-operator row
+        SP = profile('full', max_sub=3, max_width=7, adjacent_joins=False)
+        r = _split_row(draw, SP, paths)
+        if r is not None:
+            rows.append(r)
+            rows.append(data_row(force_note=True))
+            pickup = True
+            if MP['rejoin_before_bar'] or draw(st.booleans()):
+                while _runs(paths.sp):
+                    rows.append(_join_row(draw, SP, paths))
+            else:
+                open_split = True
     for m in range(nm):
         barno += 1
         b = draw(G.barlines(number=barno, hidden=MP['hidden_bars'], force_hidden=MP['hidden_bars'] and hide_next[0]))
